@@ -230,4 +230,8 @@ def main(argv):
         ctx.violation("BUILD", e.config, "cargo check failed for configuration %s:\n%s" % (e.config, e.log[-3000:]))
     except Exception:
         ctx.violation("INTERNAL", "exception", "checker raised an exception (fail closed):\n" + traceback.format_exc())
+    if os.environ.get("VERIF_TOUCH"):
+        os.makedirs(os.environ["VERIF_TOUCH"], exist_ok=True)
+        with open(os.path.join(os.environ["VERIF_TOUCH"], prop + ".txt"), "w") as fh:
+            fh.write("\n".join(sorted(mir.TOUCHED)) + "\n")
     return ctx.finish()
